@@ -97,6 +97,10 @@ def check(tier="quick", seed=0, workers=None, only=None, pid=PID, prefixes=PREFI
     viols = common.collect(st, prefixes) + common.collect(cst, prefixes) + common.collect(rst, prefixes) + common.collect(bst, prefixes)
     tst, tinfo = thread_part(pid, tier, seed, workers, only)
     viols += common.collect(tst, prefixes)
+    # module-level request() / stream(), pools and connections as context managers, unsupported schemes
+    from . import apiuse
+    n_api, av = apiuse.run_all(prefixes) if not only else (0, [])
+    viols += av
     pinfo = {}
     if pid == "C06" and not only:
         # malformed / truncated peer input of every protocol stage: the stream must still be closed by pool.close() at the latest
@@ -117,7 +121,12 @@ def check(tier="quick", seed=0, workers=None, only=None, pid=PID, prefixes=PREFI
               "(retries=N, N+1 faults: every way of failing N attempts at the TCP/TLS stage and then failing anywhere in the next); concurrent part: see "
               "'concurrent' key; non-trivial = outcome class (victim result, pool repr, probe result, fault@op) of an execution with an injected fault or a cancellation"),
         extra={"sequential": {"scenarios": len(specs), "executions": st.evaluations, "states": st.states},
-               "concurrent": cinfo, "trio_world": rinfo, "real_backends": binfo, "sync_pool_under_threads": tinfo, "peer_input_corpus": pinfo, "other_oracles_seen": common.foreign(st, prefixes)})
+               "concurrent": cinfo, "trio_world": rinfo, "real_backends": binfo, "sync_pool_under_threads": tinfo, "api_use_cases": n_api, "peer_input_corpus": pinfo, "other_oracles_seen": common.foreign(st, prefixes)})
     return {"level": "fault_enumeration", "coverage": cov, "violations": viols,
             "assumptions": ["faults are the documented backend exceptions; a failed write delivers none of its bytes; a hard read/write error means the peer is gone",
                             "start_tls closes the transport when it fails with an Exception, as all three real backends do; not on cancellation"]}
+
+
+def replay_case(case):
+    from . import apiuse
+    return apiuse.replay_case(case, PREFIXES)
